@@ -126,6 +126,19 @@ ScheduleEffect(n, ts, mode, sel) ==
         /\ running' = IF finish THEN [running EXCEPT ![n] = @ - 1]
                                 ELSE running
 
+\* What a queued task carries (its payload: the version guard of a
+\* synchronisation, revocation lists) is not part of the state of this model.
+\* The property about it is a step property for recorded traces: a call that
+\* writes an entry -- every call but an IfMissing that finds the name pending
+\* or running -- leaves an entry of that name that carries the payload of
+\* THIS call, also when the time of an earlier entry is kept
+\* (ReplaceExistingSoonest): the follow-up of the latest change runs with what
+\* that change asked for.  (v: the payload of the call; pays: the payloads of
+\* the entries pending under the name after it.)
+ScheduleWrites(n, mode) ==
+    mode # "IfMissing" \/ (PendingNamed(n) = {} /\ running[n] = 0)
+PayloadKeptStep(n, mode, v, pays) == ScheduleWrites(n, mode) => v \in pays
+
 Schedule(n, ts, mode) ==
     /\ up
     /\ \E sel \in SelOptions(n) : ScheduleEffect(n, ts, mode, sel)
